@@ -463,6 +463,75 @@ func phiRelated(a, b ssa.Value) bool {
 	return reachv(a, 0)
 }
 
+// isExtremumSelector: f(a, b T) T hands back one of its two arguments, chosen by comparing them (maxTime, minInt): folding
+// a collection with it gives the same result in every order. No effects, no other calls than the comparison.
+func isExtremumSelector(f *ssa.Function) bool {
+	if f == nil || f.Blocks == nil || len(f.Params) != 2 || f.Signature.Recv() != nil || f.Signature.Results().Len() != 1 {
+		return false
+	}
+	if !types.Identical(f.Params[0].Type(), f.Params[1].Type()) || !types.Identical(f.Params[0].Type(), f.Signature.Results().At(0).Type()) {
+		return false
+	}
+	isParam := func(v ssa.Value) bool {
+		v = strip(v)
+		if ld, ok := v.(*ssa.UnOp); ok && ld.Op == token.MUL {
+			// a parameter spilled to a local because a method took its address
+			if al, ok := ld.X.(*ssa.Alloc); ok {
+				sts := cellStores(al)
+				return len(sts) == 1 && (sts[0].Val == ssa.Value(f.Params[0]) || sts[0].Val == ssa.Value(f.Params[1]))
+			}
+		}
+		return v == ssa.Value(f.Params[0]) || v == ssa.Value(f.Params[1])
+	}
+	compared := false
+	for _, b := range f.Blocks {
+		for _, in := range b.Instrs {
+			switch x := in.(type) {
+			case *ssa.Return:
+				if len(x.Results) != 1 {
+					return false
+				}
+				vals := []ssa.Value{x.Results[0]}
+				if ph, ok := x.Results[0].(*ssa.Phi); ok {
+					vals = ph.Edges
+				}
+				for _, v := range vals {
+					if !isParam(v) {
+						return false
+					}
+				}
+			case *ssa.Call:
+				switch calleeFullName(&x.Call) {
+				case "(time.Time).After", "(time.Time).Before", "(time.Time).Compare", "cmp.Compare", "strings.Compare":
+					for _, a := range x.Call.Args {
+						if !isParam(a) {
+							return false
+						}
+					}
+					compared = true
+				default:
+					return false
+				}
+			case *ssa.BinOp:
+				switch x.Op {
+				case token.LSS, token.GTR, token.LEQ, token.GEQ:
+					if !isParam(x.X) || !isParam(x.Y) {
+						return false
+					}
+					compared = true
+				}
+			case *ssa.Store:
+				if al, ok := x.Addr.(*ssa.Alloc); !ok || !isParam(x.Val) || al.Heap {
+					return false
+				}
+			case *ssa.MapUpdate, *ssa.Go, *ssa.Defer, *ssa.Send:
+				return false
+			}
+		}
+	}
+	return compared
+}
+
 // ---- loops
 
 // loopBlocks: blocks of the loop headed by hdr (natural loop: hdr dominates them and they reach hdr).
@@ -494,6 +563,8 @@ func (d *dt1) bodyEffects(f *ssa.Function, blocks map[*ssa.BasicBlock]bool, what
 					case *ssa.Call:
 						if calleeFullName(&y.Call) == "builtin append" {
 							collectors = append(collectors, x)
+						} else if isExtremumSelector(calleeOf(&y.Call)) {
+							// max/min of the elements seen so far: the same whatever the order
 						} else if !isBasic(x.Type()) {
 							problems = append(problems, fmt.Sprintf("loop-carried value updated by %s at %s", calleeFullName(&y.Call), c.Pos(y.Pos())))
 						}
